@@ -193,6 +193,42 @@ func ruleLabelFormatDirection(r *Run) {
 		bad = true
 		o2.Fail(r.pos(exec.Pos()), "the template is executed over %s, not over set.AsMap()", describe(exec.Common().Args[2], 0))
 	}
+	// the label is written only when the template ran without error
+	{
+		hosts := callersWithin(lgrp, exec.Parent())
+		errVals := map[ssa.Value]bool{}
+		if ec, ok := exec.(*ssa.Call); ok {
+			errVals[ec] = true
+		}
+		for _, g := range lgrp {
+			for _, c := range callsIn(g) {
+				call, ok := c.(*ssa.Call)
+				if !ok || !hosts[staticCallee(call)] {
+					continue
+				}
+				if isErrorType(call.Type()) {
+					errVals[call] = true
+				}
+				if refs := call.Referrers(); refs != nil {
+					for _, ref := range *refs {
+						if ex, ok := ref.(*ssa.Extract); ok && isErrorType(ex.Type()) {
+							errVals[ex] = true
+						}
+					}
+				}
+			}
+		}
+		clean := false
+		for _, f := range factsAt(set.Block()) {
+			if x, trueWhenNonNil, ok := nilCheck(f.Cond); ok && errVals[x] && f.Truth != trueWhenNonNil {
+				clean = true
+			}
+		}
+		if !clean {
+			bad = true
+			o2.Fail(r.pos(set.Pos()), "the label is written although the template's execution may have failed (no `err == nil` on the way to Set): a failing template leaves partial output in the label instead of only flagging __error__")
+		}
+	}
 	// value set is buf.String() after Execute into the same buffer (helpers on the way to Execute walked inline)
 	{
 		hosts := callersWithin(lgrp, exec.Parent())
